@@ -18,7 +18,7 @@ VARIABLES stored, case
 Classes == {"plain", "space", "dot", "squote", "dquote", "backslash", "control", "newline", "unicode", "nonbmp", "hash", "equals", "bracket"}
 PathForms == {"plain", "nested", "v2", "v10", "host", "atword", "atodd"}
 Cases == [name : Classes \cup {"empty"}, ignore : SUBSET {"plain", "dquote", "newline"}, nreq : 0..2,
-          key : Classes, key2 : {"plain", "dquote", "unicode"}, path : PathForms]
+          key : Classes \cup {"empty"}, key2 : {"plain", "dquote", "unicode"}, path : PathForms]
 
 Init == stored = [set |-> FALSE] /\ case \in Cases
 Write == stored' = [set |-> TRUE, c |-> case] /\ UNCHANGED case          \* WriteConfigFile
